@@ -138,6 +138,7 @@ void run(Ctx &ctx) {
     ipfuture_product(ctx, z.fut_len - 1, [&](const Str &s) { b.run(s.data(), (int)s.size(), 2); });
     if (z.octets) octet_product(ctx, [&](const Str &s) { b.run(s.data(), (int)s.size(), 1); });
     dotted_family(ctx, [&](const Str &s) { b.run(s.data(), (int)s.size(), 2); });
+    userinfo_ip_family(ctx, [&](const Str &s) { b.run(s.data(), (int)s.size(), 2); });
     // stretch family (long components): guard-placed, one trailing-context round, failing allocations at both ends and in the middle
     { Both bs(ctx, 520); uint64_t si = 0; stretch_family(ctx.secondary ? 0 : ctx.quick() ? 1 : 2, [&](const Str &s) { if (!ctx.mine(si++) || ctx.expired()) return;
         for (auto &x : { s, s + "%4", s + "[" }) { bs.run(x.data(), (int)x.size(), -1); ctx.st.count("stretch_family"); } });
